@@ -29,21 +29,21 @@ CLAIMS = {
          "Narrow: routing tables (hash maps), CidState, generators are outside (DESIGN §4 C09)."),
  "C10": ("Encode/decode round-trips and decoder totality for varints (all values), packet numbers (whole window), connection IDs (all lengths), frame-type/ECN/stream-id packing, transport parameters and per-frame codecs within stated payload bounds.",
          "Bounds: payloads <= 4-8 bytes, structure (frame type, CID lengths, buffer length) enumerated concretely; HashedConnectionIdGenerator outside (DESIGN §4 C10)."),
- "C11": ("Send-half and Recv-half operations compared against the QUIC stream state table from every abstract state (Ready / DataSent{acked?} / ResetSent x stopped?; Recv{size?} / ResetRecvd x stopped?). On the MIR of StreamsState: received_stop_sending queues Stopped exactly once per stopped stream with the peer's code; reset_acked frees the sending half exactly when it is in ResetSent; stream_freed / received_reset / Chunks::next as listed in DESIGN section 10.",
+ "C11": ("Send-half and Recv-half operations compared against the QUIC stream state table from every abstract state (Ready / DataSent{acked?} / ResetSent x stopped?; Recv{size?} / ResetRecvd x stopped?). On the MIR of StreamsState: received_stop_sending queues Stopped exactly once per stopped stream with the peer's code; reset_acked frees the sending half exactly when it is in ResetSent; stream_freed / received_reset / Chunks::next as listed in DESIGN section 10. RecvStream::received_reset reports a closed stream for a stopped or vanished stream and hands out the reset code only together with the stream's removal.",
          "Partial: application events, stream-count release and Chunks need the stream hash maps (DESIGN §4 C11)."),
  "C12": ("Built-in controllers never report a window below two datagrams after any single event from any state satisfying the invariant; in-flight accounting insert/remove is an exact inverse; ACKs of skipped packet numbers are rejected; Connection::on_packet_acked removes exactly the acknowledged packet once; following a Retry discards the old Initial space before a new one is installed; poll_transmit starts an ack-eliciting non-probe datagram only below the congestion window (slices). One iteration of the loss scan in detect_lost_packets declares a packet lost exactly per RFC 9002 6.1 (sent >= loss_delay ago, or >= packet_threshold before the largest acknowledged) and records it exactly once.",
          "Partial: loss detection (detect_lost_packets' loops), discard paths other than Retry and pluggable controllers are outside (DESIGN §4 C12)."),
  "C13": ("MTU discovery as an inductive invariant: from EVERY state satisfying the representation invariant, one step of poll_transmit / on_acked / on_probe_lost / peer-limit reception / black-hole detection keeps probes within peer and configured limits, raises the estimate only on an acked probe of exactly that size, never drops it below min(min_mtu, peer limit), keeps at most one probe in flight and makes the search terminate; the peer's max_udp_payload_size reaches MTU discovery saturated to u16 (set_peer_params, migrate); DATAGRAM frames are written and admitted only within the current MTU (e2_dgram_write, e2_datagrams_max_size); a packet is padded to the segment size only within the datagram's own budget (loss probes stay at 1200 bytes); a detected black hole purges every queued datagram that no longer fits (slices of poll_transmit / detect_lost_packets).",
          "Partial: PacketBuilder's own size arithmetic and GSO batching in poll_transmit are outside (DESIGN §4 C13)."),
- "C14": ("Token validation kernels: for a genuine token presented from a symbolic address at a symbolic time, 'validated' implies address (and port for Retry) equality, lifetime and (NEW_TOKEN) log acceptance, the reuse log being consulted with the token's own nonce / issue time; constant-time token comparison = equality; the client accepts the server's transport parameters only if initial_src_cid, original_dst_cid and retry_src_cid echo the connection IDs actually used (RFC 9000 7.3, all 20 CID bytes symbolic). The client-side TokenMemoryCache hands out a stored token only by removing it from its queue (State::take on the MIR).",
+ "C14": ("Token validation kernels: for a genuine token presented from a symbolic address at a symbolic time, 'validated' implies address (and port for Retry) equality, lifetime and (NEW_TOKEN) log acceptance, the reuse log being consulted with the token's own nonce / issue time; constant-time token comparison = equality; the client accepts the server's transport parameters only if initial_src_cid, original_dst_cid and retry_src_cid echo the connection IDs actually used (RFC 9000 7.3, all 20 CID bytes symbolic). The client-side TokenMemoryCache hands out a stored token only by removing it from its queue (State::take on the MIR). One filter of the server-side BloomTokenLog refuses a fingerprint exactly when it is present and carries every fingerprint over when the hash set is converted into a bloom filter (MIR dumped with the `bloom` feature).",
          "Assumes AEAD authenticity (stub accepts exactly what it sealed); BloomTokenLog, TokenMemoryCache, Retry integrity tag, CID echo check are outside (DESIGN §4 C14)."),
- "C15": ("Five kernels of migration safety: Connection::migrate leaves the new path unvalidated with a pending challenge and the validation timer armed, and replaces the path to fall back to only by a path that was not itself awaiting validation (every connection state, MIR->SMT); a datagram from an address other than the established one is ignored (nothing credited, counted or processed) unless this is a server whose configuration permits migration - decided for every outcome of the address comparison and of remote_may_migrate; the migration trigger at the end of process_payload fires exactly for a non-probing packet from another address that has the highest packet number (slice from an arbitrary state); the PATH_RESPONSE arm validates the path exactly when the outstanding token comes back from the path's own address (slice); and a path created for a migrated peer starts unvalidated with zeroed amplification counters and nothing in flight, whatever the previous path's state.",
+ "C15": ("Five kernels of migration safety: Connection::migrate leaves the new path unvalidated with a pending challenge and the validation timer armed, and replaces the path to fall back to only by a path that was not itself awaiting validation (every connection state, MIR->SMT); a datagram from an address other than the established one is ignored (nothing credited, counted or processed) unless this is a server whose configuration permits migration - decided for every outcome of the address comparison and of remote_may_migrate; the migration trigger at the end of process_payload fires exactly for a non-probing packet from another address that has the highest packet number (slice from an arbitrary state); the PATH_RESPONSE arm validates the path exactly when the outstanding token comes back from the path's own address (slice); and a path created for a migrated peer starts unvalidated with zeroed amplification counters and nothing in flight, whatever the previous path's state. A sixth: when the PathValidation timer fires, the path the connection ends up on has no challenge left outstanding.",
          "Narrow: the PathValidation timeout handler restoring the previous path and PATH_CHALLENGE emission in populate_packet are Connection code with loops and are outside the claim."),
  "C16": ("DatagramState kernels with <= 1 queued datagram (oldest dropped first, window never exceeded, send-buffer accounting consistent) under Kani; and on the MIR of the real Connection methods: Datagrams::max_size = min(peer limit - 9, MTU - overhead - 9), Datagrams::send admits exactly what fits (Disabled / UnsupportedByPeer / TooLarge / Blocked verdict table), DatagramState::write emits a frame iff the frame as encoded fits.",
          "Partial: queues of two or more datagrams (VecDeque::retain / pop loops) exhaust CBMC; the call sites in populate_packet / loss handling and at-most-once under packet duplication (C01.a + handle_packet) are outside (DESIGN §4 C16, §9)."),
- "C17": ("Three kernels of the 0-RTT contract: after a Retry has discarded the 0-RTT packets, one iteration of StreamsState::retransmit_all_for_0rtt schedules the whole written prefix of the stream again, its FIN included - also for a stream that consists of a FIN only (slice from an arbitrary stream state with nothing acknowledged; found finding 12); when early data is REJECTED, StreamsState::zero_rtt_rejected followed by the server's fresh parameters leaves exactly the fresh connection / stream-count limits in force and no early byte accounted (every remembered and fresh value, every amount of early data); when it is ACCEPTED, TransportParameters::validate_resumption_from refuses fresh parameters that reduce any limit the client may already have relied on.",
+ "C17": ("Three kernels of the 0-RTT contract: after a Retry has discarded the 0-RTT packets, one iteration of StreamsState::retransmit_all_for_0rtt schedules the whole written prefix of the stream again, its FIN included - also for a stream that consists of a FIN only (slice from an arbitrary stream state with nothing acknowledged; found finding 12); when early data is REJECTED, StreamsState::zero_rtt_rejected followed by the server's fresh parameters leaves exactly the fresh connection / stream-count limits in force and no early byte accounted (every remembered and fresh value, every amount of early data); when it is ACCEPTED, TransportParameters::validate_resumption_from refuses fresh parameters that reduce any limit the client may already have relied on. A fourth: the handshake-completion branch rolls the streams back, drops queued early frames and takes every early packet out of the in-flight accounting exactly when the TLS session reports early data as rejected.",
          "Narrow: exactly-once delivery of early data, its disappearance on rejection, per-stream rejection reports and everything over the stream hash maps with streams open are outside the claim (hashbrown does not finish in CBMC; DESIGN §4 C17)."),
- "C19": ("Control-message encoder/decoder stay within their buffers and round-trip (level, type, value) for every option subset prepare_msg uses; ECN/stride decoding of symbolic control blocks; the receive control buffer (cmsg::LEN) holds every set of control messages Linux attaches for the options the socket enables (timestamp, GRO, packet info, TOS/traffic class; IPv4 and IPv6); the real prepare_msg conveys destination, ECN bits, segment size and requested source address for every Transmit; the GSO probe leaves no socket-wide segmentation behind (quinn-udp MIR).",
+ "C19": ("Control-message encoder/decoder stay within their buffers and round-trip (level, type, value) for every option subset prepare_msg uses; ECN/stride decoding of symbolic control blocks; the receive control buffer (cmsg::LEN) holds every set of control messages Linux attaches for the options the socket enables (timestamp, GRO, packet info, TOS/traffic class; IPv4 and IPv6); the real prepare_msg conveys destination, ECN bits, segment size and requested source address for every Transmit; the GSO probe leaves no socket-wide segmentation behind (quinn-udp MIR). decode_socket_addr reproduces address, port, flow label and scope id of the kernel's sockaddr for every value.",
          "cmsg layer only: sockets, GSO/GRO and fallbacks are kernel behaviour behind FFI (DESIGN §4 C19)."),
 }
 
